@@ -177,7 +177,7 @@ META["C16"] = {
 
 META["C19"] = {
     "title": "Scheduled tasks run at most once, never early, and stay cancelled",
-    "rule": "cases = (set of 1-4 tasks scheduled directly through the public Scheduler::schedule on the order-choosing executor: OnceTask, OnceTask returning a subscription (SubscribeReturn), FutureTask over a scripted future pending 0-2 polls, RepeatTask with period 1|5 ms declining after 1-4 runs; delay in {none, 0, 1, 5} ms; for each handle a cancellation step (or none); local or thread-safe scheduler form; fifo|any task order; prompt|late schedule; seed). is_closed() of every handle is sampled before every step. Non-trivial: a cancellation fell while its task was still pending (scheduled, not finished); distinct = hash(case).",
+    "rule": "cases = (set of 1-4 tasks scheduled directly through the public Scheduler::schedule on the order-choosing executor: OnceTask, OnceTask returning a subscription (SubscribeReturn), FutureTask over a scripted future pending 0-2 polls, RepeatTask (new and new_immediate) with period 1|5 ms declining after 1-4 runs; delay in {none, 0, 1, 5} ms; for each handle a cancellation step (or none); local or thread-safe scheduler form; fifo|any task order; prompt|late schedule; seed). is_closed() of every handle is sampled before every step. Non-trivial: a cancellation fell while its task was still pending (scheduled, not finished); distinct = hash(case).",
     "assumptions": COMMON_ASSUME + [
         "bodies are harness fn pointers that log start/end stamps; 'never early' is judged on virtual time: a one-shot body not before schedule + delay, a repeating body not before its delay and later runs at least one period apart",
         "single-threaded here: 'the body is not still running when unsubscribe() returns' is checked by the baton scenarios (worker thread vs cancelling thread) reported under thread_* counters",
@@ -186,7 +186,7 @@ META["C19"] = {
     "level_text": "Exploration over sampled task sets, cancellation points and run orders.",
     "level_note": "Trusted: arena executor, virtual clock; the library's remote_handle/Remote::poll/TaskHandle run unchanged.",
     "design_ref": "DESIGN.md §5 C19",
-    "require": {"quick": {"cancellations_while_pending": 20000, "task_kinds_covered": 4}, "thorough": {"task_kinds_covered": 4}},
+    "require": {"quick": {"cancellations_while_pending": 20000, "task_kinds_covered": 5, "thread_schedules": 4000}, "thorough": {"task_kinds_covered": 5}},
 }
 
 META["C14"] = {
